@@ -73,9 +73,10 @@ func c08Send(prefix, op string) string {
 
 func c08Run(c string) string {
 	c08Cases++
-	if c08Cases%200 == 0 {
-		c08Stop()
+	if c08Cases%200 == 0 { // a fresh instance; the old one shuts down in the background
+		old := c08Srv
 		c08Start()
+		go old.stop()
 	}
 	prefix := fmt.Sprintf("k%d-", c08Cases)
 	nc := c08Srv.nc
